@@ -1,6 +1,7 @@
 (* Model/Text.v — _left/_right/_mid/_search/_value/_excel_value_to_string and the & emission, as coded. *)
 Require Import X2P.Base.Prelude X2P.Base.F64 X2P.Base.PyCmp X2P.Base.PyType X2P.Base.PyNum X2P.Base.Str.
 Require X2P.Base.Regex.
+Require Import X2P.Gen.Regexes.
 Open Scope string_scope.
 Open Scope Z_scope.
 
@@ -37,7 +38,8 @@ Definition mid (text : string) (start n : Z) : res val :=
   else Ok (VStr (str_slice text (start - 1) (start + n - 1))).
 
 (* ---------- _search ---------- *)
-Definition WILD_PAT : string := "([^~][?*]|^[?*])".
+(* the pattern string is taken from the current source (Gen/Regexes.v) *)
+Definition WILD_PAT : string := search_wild_re.
 
 Definition of_nat_Z (n : nat) : Z := Z.of_nat n.
 
